@@ -6,6 +6,40 @@ sys.path.insert(0, os.path.dirname(os.path.abspath(__file__)))
 from vlib import core, build
 
 
+def generic_replay(mod, rp):
+    """re-runs the recorded case: a generated-program case is regenerated from its seed and run through the module's worker again
+    (same oracle); a harness case re-runs the recorded command line. Exit 1 if the same violation key shows again, 0 if not."""
+    import subprocess
+    from props import progcommon as pc
+    info = rp.get("replay", {})
+    want = rp.get("key", "")
+    if info.get("cmd"):
+        cmd = info["cmd"].split() + (["--first", str(info["hist"]), "--count", "1"] if "hist" in info and "--first" not in info["cmd"] else [])
+        print("re-running:", " ".join(cmd))
+        r = subprocess.run(cmd, stdout=subprocess.PIPE, stderr=subprocess.STDOUT, text=True, timeout=3600)
+        print(r.stdout[-3000:])
+        return 1 if ("VIOL " in r.stdout or r.returncode not in (0,)) else 0
+    seed = info.get("seed")
+    if seed is None or not hasattr(mod, "worker"):
+        print("nothing to re-run for this replay file")
+        return 0
+    t = pc.trees("plain")
+    cands = [(seed, t["plain"])]
+    if hasattr(mod, "any_worker"):
+        cands = [(k, seed, t["plain"]) for k in ("interp", "diff", "probe", "compiled")]
+    again = []
+    for arg in cands:
+        try:
+            rec = (mod.any_worker if len(arg) == 3 else mod.worker)(arg)
+        except Exception as e:      # a case kind that does not exist for this seed
+            continue
+        for k, dtl in rec.get("viols", []):
+            again.append(k)
+            print("key=%s\n%s\n" % (k, dtl[:3000]))
+    print("recorded key: %s\nkeys observed now: %s" % (want, sorted(set(again))))
+    return 1 if want in again or (again and not want) else 0
+
+
 def main():
     ap = argparse.ArgumentParser()
     sub = ap.add_subparsers(dest="cmd")
@@ -31,7 +65,7 @@ def main():
         mod = importlib.import_module("props." + rp["property"].lower())
         if hasattr(mod, "replay"):
             sys.exit(mod.replay(rp))
-        sys.exit(0)
+        sys.exit(generic_replay(mod, rp))
     ap.print_help()
     sys.exit(2)
 
